@@ -90,7 +90,7 @@ func Explicit(in Input, obs *Obs) Input {
 	return Input{Scenario: &sc, Acts: acts}
 }
 
-var profile = opsim.Profile{Name: "c04", MaxHooks: 3, Steps: 30, PFail: 50, PHold: 25, V0: false, PWait: 40, PShort: 10}
+var profile = opsim.Profile{Name: "c04", MaxHooks: 3, Steps: 30, PFail: 50, PHold: 25, V0: false, PWait: 40, PShort: 10, PFiles: 35}
 
 func init() { opsim.RegisterProfile(profile) }
 
@@ -117,11 +117,30 @@ func Corpus() []opsim.Scenario {
 	}
 }
 
+// WaysCorpus: every way of failing with exit status 0 - the failure lies in what the hook wrote (metrics, patch) - with and
+// without allowFailure, followed by a success that writes valid files; a second task waits behind the failing one.
+func WaysCorpus() []opsim.Scenario {
+	var out []opsim.Scenario
+	for w := range opsim.FailWays {
+		for _, allow := range []bool{false, true} {
+			cfg := []opsim.Hook{{Id: 1, Sched: []opsim.SB{{Name: 1, Queue: 1, Allow: allow, Cron: 1}, {Name: 2, Queue: 1, Cron: 2}}}}
+			out = append(out, opsim.Scenario{Cfg: cfg, Acts: []opsim.Action{{Kind: "Boot"}, {Kind: "Tick", C: 1}, {Kind: "Tick", C: 2},
+				{Kind: "Finish", Q: 1, Exit0: true, Files: opsim.OutputFiles(w, 1)}, {Kind: "Finish", Q: 1, Ok: true, Files: opsim.OutputFiles(-1, 2)},
+				{Kind: "Finish", Q: 1, Ok: true}}})
+		}
+	}
+	return out
+}
+
 func Gen(r *core.Rng, tier string) ([]core.In[Input], bool) {
 	var ins []core.In[Input]
 	for _, sc := range Corpus() {
 		sc := sc
 		ins = append(ins, core.In[Input]{Input: Input{Scenario: &sc}, Stream: "corpus"})
+	}
+	for _, sc := range WaysCorpus() {
+		sc := sc
+		ins = append(ins, core.In[Input]{Input: Input{Scenario: &sc}, Stream: "ways-of-failing"})
 	}
 	// CalculateDelayWithMax: every retry count 0..8 for several (initial, max)
 	calls := 300
@@ -149,7 +168,7 @@ func Gen(r *core.Rng, tier string) ([]core.In[Input], bool) {
 
 var Driver = core.Driver[Input, Obs]{
 	Spec: core.Spec{Property: "C04", Imports: []string{"Op_Model", "Op_Corr", "C04_Spec", "C04_Delay", "C04_Corr"}, Corr: "C04_Corr", ShrinkKey: "acts",
-		Rule: "operator-level scenarios (see C03) with 50% failing executions, mixed allowFailure, tasks combined while a queue is busy; non-trivial = >=4 actions of >=2 kinds with >=2 executions; distinct = distinct (config, action list); plus a 'delay' stream: CalculateDelayWithMax called repeatedly for 6 (initial,max) pairs x retry 0..8, every returned value must be one the integer model can produce and >= initial"},
+		Rule: "operator-level scenarios (see C03) with 50% failing executions, mixed allowFailure, 35% of the executions writing output files - a failing one then exits 0 and fails by what it wrote: unparsable metrics, an invalid metric operation, a patch file broken from the first byte, a JSON / YAML stream with a truncated tail after valid documents, an invalid document among valid ones, an operation that cannot be applied (stream ways-of-failing: each of them with and without allowFailure) -, tasks combined while a queue is busy; non-trivial = >=4 actions of >=2 kinds with >=2 executions; distinct = distinct (config, action list); plus a 'delay' stream: CalculateDelayWithMax called repeatedly for 6 (initial,max) pairs x retry 0..8, every returned value must be one the integer model can produce and >= initial"},
 	Gen:      Gen,
 	Run:      Run,
 	Render:   Render,
